@@ -1,21 +1,31 @@
 #!/bin/bash
-# Applies every seeded change to /repo in turn, runs the quick check of the property it breaks, reverts.
-# Writes /verif/seeded/DETECTION.md. /repo must be clean; nothing else may use /repo meanwhile.
-cd /verif
+# Applies every seeded change in turn to a scratch worktree of /repo (outside /repo and /verif),
+# runs the quick check of the property it breaks against that worktree (VERIF_REPO), and writes
+# /verif/seeded/DETECTION.md. A snapshot of /verif is used so that harnesses may be edited meanwhile.
+# usage: tools/run_all_mutants.sh [glob]      e.g. tools/run_all_mutants.sh 'C0*-r2*'
+export GOFLAGS=-mod=mod GOPROXY=off GOSUMDB=off GOTOOLCHAIN=local
+pat="${1:-C*}"
+wt=/tmp/repo_mut_$$; snap=/tmp/verif_snap_$$
+git -C /repo worktree add -q --detach $wt HEAD || exit 2
+rsync -a --exclude .git --exclude work --exclude replays /verif/ $snap/
+trap 'git -C /repo worktree remove --force $wt; rm -rf $snap /tmp/mm_out_$$.txt /tmp/mm_err_$$.txt' EXIT
 out=/verif/seeded/DETECTION.md
-echo "# Seeded changes vs. checks (quick tier, $(date -u +%F) , /repo HEAD $(git -C /repo rev-parse --short HEAD))" > $out
-echo >> $out
-echo "| seeded change | property check run | result | what the check reported |" >> $out
-echo "|---|---|---|---|" >> $out
-for d in /verif/seeded/C*/; do
-  n=$(basename $d); id=${n%-*}
-  if ! git -C /repo diff --quiet; then echo "/repo dirty"; exit 2; fi
-  git -C /repo apply $d/patch.diff || { echo "| $n | $id | patch does not apply | |" >> $out; continue; }
-  ./check $id --tier quick > /tmp/mm_out.txt 2>/tmp/mm_err.txt; rc=$?
-  git -C /repo checkout -- .
-  what=$(grep "violation:" /tmp/mm_err.txt | head -1 | sed 's/.*violation: //; s/ | inputs=.*//' | cut -c1-160 | tr '|' '/')
-  inc=$(grep -c "^INCONCLUSIVE" /tmp/mm_out.txt)
+if [ "$pat" = "C*" ]; then
+  echo "# Seeded changes vs. checks (quick tier, $(date -u +%F), /repo HEAD $(git -C /repo rev-parse --short HEAD))" > $out
+  echo >> $out
+  echo "| seeded change | property check run | result | what the check reported |" >> $out
+  echo "|---|---|---|---|" >> $out
+fi
+cd $snap
+for d in /verif/seeded/$pat/; do
+  n=$(basename $d); id=${n%%-*}
+  git -C $wt checkout -q -- .
+  git -C $wt apply $d/patch.diff || { echo "| $n | $id | patch does not apply | |" >> $out; echo "$n: patch does not apply"; continue; }
+  VERIF_REPO=$wt timeout 1800 ./check $id --tier quick > /tmp/mm_out_$$.txt 2>/tmp/mm_err_$$.txt; rc=$?
+  git -C $wt checkout -q -- .
+  what=$(grep "violation:" /tmp/mm_err_$$.txt | head -1 | sed 's/.*violation: //; s/ | inputs=.*//' | cut -c1-160 | tr '|' '/')
+  inc=$(grep -c "^INCONCLUSIVE" /tmp/mm_out_$$.txt)
   if [ $rc -eq 1 ]; then res="**caught** (exit 1, natively replayed)"; else res="not caught by $id (exit $rc, inconclusive=$inc)"; fi
-  echo "| $n | $id | $res | $what |" >> $out
-  echo "$n rc=$rc $what"
+  if [ "$pat" = "C*" ]; then echo "| $n | $id | $res | $what |" >> $out; fi
+  echo "$n rc=$rc inc=$inc $what"
 done
